@@ -376,9 +376,32 @@ fn inter_pairs<'i, R: RuleName>(cx: &mut Cx, view: &'static str, it: Pairs<'i, R
     let mut tail = 0;
     let mut fail: Option<(Value, Value)> = None;
     while fail.is_none() && tail < 5 {
-        let op = if hist.len() >= soft { rng.below(2) } else { rng.weighted(&[28, 28, 12, 6, 10, 6, 5, 5]) };
+        let op = if hist.len() >= soft { rng.below(2) } else { rng.weighted(&[28, 28, 12, 6, 10, 6, 5, 5, 5, 5, 5]) };
         cx.ops += 1;
         match op {
+            8 => {
+                // go on with a clone: whatever the iterator caches must survive being copied mid-way
+                hist.push("clone");
+                it = it.clone();
+            }
+            9 => {
+                let k = rng.below(dq.len() + 2).min(3 + rng.below(3));
+                hist.push(["nth(0)", "nth(1)", "nth(2)", "nth(3)", "nth(4)", "nth(5)"][k.min(5)]);
+                let got = it.nth(k);
+                for _ in 0..k {
+                    dq.pop_front();
+                }
+                fail = cmp_item(&got, dq.pop_front(), fl, prim, input);
+            }
+            10 => {
+                let k = rng.below(dq.len() + 2).min(3 + rng.below(3));
+                hist.push(["nth_back(0)", "nth_back(1)", "nth_back(2)", "nth_back(3)", "nth_back(4)", "nth_back(5)"][k.min(5)]);
+                let got = it.nth_back(k);
+                for _ in 0..k {
+                    dq.pop_back();
+                }
+                fail = cmp_item(&got, dq.pop_back(), fl, prim, input);
+            }
             0 => {
                 hist.push("next");
                 let got = it.next();
@@ -452,10 +475,35 @@ fn inter_flat<'i, R: RuleName>(cx: &mut Cx, it: pest::iterators::FlatPairs<'i, R
     let mut fail: Option<(Value, Value)> = None;
     // (history length, expected, observed, half of the raw token window)
     let mut len_bad: Vec<(usize, usize, usize, usize)> = vec![];
+    let mut window_tracked = true;
     while fail.is_none() && tail < 4 {
-        let op = if hist.len() >= soft { rng.below(2) } else { rng.weighted(&[30, 30, 25, 15]) };
+        let op = if hist.len() >= soft { rng.below(2) } else { rng.weighted(&[30, 30, 25, 15, 8, 6, 6]) };
         cx.ops += 1;
         match op {
+            4 => {
+                hist.push("clone".into());
+                it = it.clone();
+            }
+            5 | 6 => {
+                let k = rng.below(dq.len() + 2).min(3 + rng.below(3));
+                // the raw-window explanation of the (repaired) len defect does not follow nth: give it up
+                window_tracked = false;
+                if op == 5 {
+                    hist.push(format!("nth({k})"));
+                    let got = it.nth(k);
+                    for _ in 0..k {
+                        dq.pop_front();
+                    }
+                    fail = cmp_item(&got, dq.pop_front(), fl, prim, input);
+                } else {
+                    hist.push(format!("nth_back({k})"));
+                    let got = it.nth_back(k);
+                    for _ in 0..k {
+                        dq.pop_back();
+                    }
+                    fail = cmp_item(&got, dq.pop_back(), fl, prim, input);
+                }
+            }
             0 => {
                 hist.push("next".into());
                 let got = it.next();
@@ -479,7 +527,7 @@ fn inter_flat<'i, R: RuleName>(cx: &mut Cx, it: pest::iterators::FlatPairs<'i, R
                 }
             }
             k => {
-                let raw = ((we - ws).max(0) as usize) >> 1;
+                let raw = if window_tracked { ((we - ws).max(0) as usize) >> 1 } else { usize::MAX };
                 let (name, got, exact) = if k == 2 {
                     ("len", it.len(), true)
                 } else {
@@ -522,7 +570,7 @@ fn inter_tokens<'i, R: RuleName>(cx: &mut Cx, it: pest::iterators::Tokens<'i, R>
     let mut tail = 0;
     let mut fail: Option<(Value, Value)> = None;
     while fail.is_none() && tail < 4 {
-        let op = if hist.len() >= soft { rng.below(2) } else { rng.weighted(&[35, 35, 20, 10]) };
+        let op = if hist.len() >= soft { rng.below(2) } else { rng.weighted(&[35, 35, 20, 10, 8, 7, 7]) };
         cx.ops += 1;
         let item = |got: Option<Token<'i, R>>, want: Option<&Tok>| {
             let g = got.as_ref().map(mtok);
@@ -546,6 +594,29 @@ fn inter_tokens<'i, R: RuleName>(cx: &mut Cx, it: pest::iterators::Tokens<'i, R>
                 if it.len() != dq.len() {
                     fail = Some((json!(dq.len()), json!(it.len())));
                 }
+            }
+            4 => {
+                hist.push("clone");
+                it = it.clone();
+            }
+            5 => {
+                // skipping forward, also past the end of the window
+                let k = rng.below(dq.len() + 3);
+                hist.push(if k < dq.len() { "nth(k<len)" } else { "nth(k>=len)" });
+                let got = it.nth(k);
+                for _ in 0..k {
+                    dq.pop_front();
+                }
+                fail = item(got, dq.pop_front());
+            }
+            6 => {
+                let k = rng.below(dq.len() + 3);
+                hist.push(if k < dq.len() { "nth_back(k<len)" } else { "nth_back(k>=len)" });
+                let got = it.nth_back(k);
+                for _ in 0..k {
+                    dq.pop_back();
+                }
+                fail = item(got, dq.pop_back());
             }
             _ => {
                 hist.push("size_hint");
